@@ -18,6 +18,7 @@ structure St where
   qCollect : Rat := 0           -- VisualSORT collect thresholds (Layer-G decision `collectOk` is taken here)
   minArea : Rat := 0
   ownCollect : Rat := 0
+  desynced : Bool := false      -- after `pipe` (no distance tables): the slot is only good for `cmp`
 
 /-! parsing -/
 /-- one detection: `xc yc angle aspect height conf custom` and, for the VisualSORT kinds,
@@ -360,6 +361,64 @@ def handlePredict (st : St) (args impl : List String) : St × String :=
     | _ => (st, bad "predict scenes")
   | _ => (st, bad "predict")
 
+/-- `pipe delay nb (ns (scene n det*)*)*` — pipelined batches retrieved by another thread. No distance
+tables can be taken (the store is being written while the next batch is submitted), so the choice is not
+validated here: the oracle is the delivery contract (every batch delivers exactly one result per scene it
+contains, one record per detection in order, echoing its box and custom id, ids distinct within a
+result), the grouping is compared afterwards with the simple tracker (`cmp`). -/
+def handlePipe (st : St) (args impl : List String) : St × String :=
+  match args with
+  | _delay :: nbT :: rest =>
+    let rec batches : Nat → Nat → List String → Option (List (List (Nat × List Det)) × Nat × List String)
+      | 0, tok, ts => some ([], tok, ts)
+      | n+1, tok, nsT :: ts => do
+        let ns ← nsT.toNat?
+        let (sc, tok', ts') ← parseScenes st.visual ns tok ts
+        let (more, tok'', ts'') ← batches n tok' ts'
+        pure (sc :: more, tok'', ts'')
+      | _, _, _ => none
+    match nbT.toNat? >>= (fun nb => batches nb st.nextTok rest) with
+    | some (bs, tok', []) =>
+      -- implementation: `PIPE nb OV k ( B idx nres (S scene R n rec*)* )*`
+      match impl with
+      | "PIPE" :: nb' :: "OV" :: ov :: body =>
+        let rec parseRes : Nat → List String → Option (List (Nat × List IRec) × List String)
+          | 0, ts => some ([], ts)
+          | n+1, ts => do
+            let (sc, rs, ts') ← recsAt ts
+            let (more, ts'') ← parseRes n ts'
+            pure ((sc, rs) :: more, ts'')
+        let rec parseB : Nat → List String → Option (List (Nat × List (Nat × List IRec)))
+          | 0, [] => some []
+          | 0, _ => none
+          | n+1, "B" :: k :: m :: ts => do
+            let k ← k.toNat?; let m ← m.toNat?
+            let (rs, ts') ← parseRes m ts
+            let more ← parseB n ts'
+            pure ((k, rs) :: more)
+          | _, _ => none
+        match nb'.toNat? >>= (fun nb => parseB nb body) with
+        | none => (st, bad "pipe: cannot parse implementation answer")
+        | some got =>
+          let oAll := got.length == bs.length && ((List.range bs.length).zip bs).all (fun (k, scenes) =>
+            match got.find? (fun g => g.1 == k) with
+            | none => false
+            | some (_, rs) =>
+              rs.length == scenes.length &&
+              scenes.all (fun (sc, ds) =>
+                match rs.filter (fun r => r.1 == sc) with
+                | [(_, recs)] => recs.length == ds.length &&
+                    (ds.zip recs).all (fun (d, r) => r.echo && r.tok == d.tok && r.custom == d.custom && r.scene == sc) &&
+                    (recs.map (·.id)).eraseDups.length == recs.length
+                | _ => false))
+          let ovN := ov.toNat?.getD 0
+          ({ st with nextTok := tok', desynced := true },
+           res true oAll (["pipelined-batches"] ++ flag (ovN > 0) "pipeline-overlap" ++ flag (bs.any (fun b => b.length ≥ 2)) "multi-scene-batch")
+             s!"batches={bs.length} overlaps={ovN} delivery={oAll}")
+      | _ => (st, bad "pipe: unexpected implementation answer")
+    | _ => (st, bad "pipe batches")
+  | _ => (st, bad "pipe")
+
 def handleOp (st : St) (op : String) (args impl : List String) : St × String :=
   let fin (st' : Tracker.St) (tok : String) (o : Bool) (flags : List String) (extra : St → St := id) : St × String :=
     let d := dumpState st.shards st' st.visual
@@ -404,6 +463,9 @@ def handle1 (st : St) (args impl : List String) : St × String :=
   if impl.head? == some "NO-TRACKER" then (st, bad "no tracker (case lost its `trk new` line)") else
   match args with
   | "new" :: a => handleNew st a
+  | "pipe" :: a => handlePipe st a impl
+  | _ => if st.desynced then (st, bad "slot was used for pipelined batches: only `new` and `cmp` are meaningful") else
+  match args with
   | "predict" :: a => handlePredict st a impl
   | op :: a => handleOp st op a impl
   | _ => (st, bad "trk")
